@@ -78,3 +78,14 @@ package cred
 //@   requires !$ioFailed
 //@   modifies $ioFailed
 //@   ensures isnil(result) ==> !$ioFailed
+
+// Shutdown ordering (property C20): the saver goroutine never returns while a save job it has taken from the
+// queue is still unwritten. recvcount(ch) is ghost state - how many values this goroutine has taken from ch -
+// and the ghost variable savedAt is set (ghost code, at the call) to that count whenever the store is written.
+//@ func (*ManagedServer).dequeueSave
+//@   requires !isnil(s) && $savedAt == recvcount(s.saveQueue)
+//@   requires ptrint(s.saveQueue) != context.ctxDoneId(ctx) && len(s.path) <= 4096
+//@   loop 0 invariant $savedAt == recvcount(s.saveQueue)
+//@   callsite saveToFile: $savedAt := recvcount(s.saveQueue)
+//@   callsite saveToFile: $ioFailed := false
+//@   ensures $savedAt == recvcount(s.saveQueue)
